@@ -263,7 +263,7 @@ where
 pub(crate) struct CacheProcessor<V, U, CB, S> {
     insert_buf_rx: Receiver<Item<V>>,
     stop_rx: Receiver<()>,
-    clear_rx: Receiver<()>,
+    clear_rx: Receiver<WaitGroup>,
     metrics: Arc<Metrics>,
     store: Arc<ShardedMap<V, U, S, S>>,
     policy: Arc<AsyncLFUPolicy<S>>,
@@ -380,7 +380,7 @@ pub struct AsyncCache<
 
     pub(crate) stop_tx: Sender<()>,
 
-    pub(crate) clear_tx: Sender<()>,
+    pub(crate) clear_tx: Sender<WaitGroup>,
 
     pub(crate) callback: Arc<CB>,
 
@@ -478,15 +478,22 @@ where
             return Ok(());
         }
 
-        // stop the process item thread.
-        self.clear_tx.send(()).await.map_err(|e| {
+        self.clear_and_wait(true).await
+    }
+
+    /// Asks the processor to drain the insert buffer and clear policy, store and metrics,
+    /// and waits until it has done so.
+    async fn clear_and_wait(&self, recheck_closed: bool) -> Result<(), CacheError> {
+        let wg = WaitGroup::new();
+        self.clear_tx.send(wg.add(1)).await.map_err(|e| {
             CacheError::SendError(format!("fail to send clear signal to working thread {}", e))
         })?;
-
-        self.policy.clear();
-        self.store.clear();
-        self.metrics.clear();
-
+        // a concurrent close() releases every pending request before the processor exits;
+        // a request queued after that must not be waited for.
+        if recheck_closed && self.is_closed.load(Ordering::SeqCst) {
+            return Ok(());
+        }
+        wg.wait().await;
         Ok(())
     }
 
@@ -558,7 +565,11 @@ where
         let wait_item = Item::Wait(wg.add(1));
         match self.insert_buf_tx.try_send(wait_item) {
             Ok(_) => {
-                wg.wait().await;
+                // a concurrent close() releases every queued marker before the processor
+                // exits; a marker queued after that must not be waited for.
+                if !self.is_closed.load(Ordering::SeqCst) {
+                    wg.wait().await;
+                }
                 Ok(())
             }
             Err(e) => Err(CacheError::SendError(format!(
@@ -598,17 +609,16 @@ where
     /// `close` stops all threads and closes all channels.
     #[inline]
     pub async fn close(&self) -> Result<(), CacheError> {
-        if self.is_closed.load(Ordering::SeqCst) {
+        if self.is_closed.swap(true, Ordering::SeqCst) {
             return Ok(());
         }
 
-        self.clear().await?;
+        self.clear_and_wait(false).await?;
         // Block until processItems thread is returned
         self.stop_tx.send(()).await.map_err(|e| {
             CacheError::SendError(format!("fail to send stop signal to working thread, {}", e))
         })?;
         self.policy.close().await?;
-        self.is_closed.store(true, Ordering::SeqCst);
         Ok(())
     }
 
@@ -672,7 +682,7 @@ where
         policy: Arc<AsyncLFUPolicy<S>>,
         insert_buf_rx: Receiver<Item<V>>,
         stop_rx: Receiver<()>,
-        clear_rx: Receiver<()>,
+        clear_rx: Receiver<WaitGroup>,
         metrics: Arc<Metrics>,
         callback: Arc<CB>,
     ) -> Self {
@@ -711,9 +721,15 @@ where
                             tracing::error!("fail to handle cleanup event, error: {}", e);
                         }
                     },
-                    _ = self.clear_rx.recv().fuse() => {
+                    msg = self.clear_rx.recv().fuse() => {
                         if let Err(e) = CacheCleaner::new(&mut self).clean().await {
                             tracing::error!("fail to handle clear event, error: {}", e);
+                        }
+                        self.policy.clear();
+                        self.store.clear();
+                        self.metrics.clear();
+                        if let Ok(wg) = msg {
+                            wg.done();
                         }
                     },
                     _ = self.stop_rx.recv().fuse() => {
@@ -730,6 +746,15 @@ where
         self.insert_buf_rx.close();
         self.clear_rx.close();
         self.stop_rx.close();
+        // release everybody still waiting on the processor.
+        while let Ok(item) = self.insert_buf_rx.try_recv() {
+            if let Item::Wait(wg) = item {
+                wg.done();
+            }
+        }
+        while let Ok(wg) = self.clear_rx.try_recv() {
+            wg.done();
+        }
         Ok(())
     }
 
